@@ -49,17 +49,6 @@ def digest (c : Content κ) : String :=
   showList ";" "~" (fun (p : κ × (W × Meta)) =>
     WireKey.render p.1 ++ "=" ++ toString p.2.1 ++ "=" ++ showMeta p.2.2) c.edges
 
-/-- apply a mutation to slot `s` -/
-def mutate (sl : Slots κ) (s : String) (f : Content κ → Option (Content κ)) : Slots κ × String :=
-  match s.toNat? with
-  | none => (sl, "bad-op")
-  | some i =>
-    match AL.get? sl i with
-    | none => (sl, "bad-slot")
-    | some c => match f c with
-      | none => (sl, "rej")
-      | some c' => (AL.set sl i c', "ok")
-
 /-- a mutation through the model's `mutateSlot`; the answer says whether the call was accepted -/
 def mutateOp (sl : Slots κ) (s : String) (op : Op κ) : Slots κ × String :=
   match s.toNat? with
